@@ -19,7 +19,7 @@ RULE = ("random combinator terms over FixStr, Dict, Spaces, DecInt, HexInt, IntS
         "order; one evaluation = one top-level round trip; distinct by (term, env, value); non-trivial when the text is non-empty")
 ASSUMPTIONS = ["'value the composition accepts' = generated structurally inside each combinator's domain (no silently dropped items)",
                "terms in which a DecInt can be followed by a decimal digit are not generated (no terminator exists)"]
-REQUIRED = ["c15.roundtrips", "c15.history_checked", "c15.leaf_law_checked", "c15.term.Rooms", "c15.term.ValuedRooms", "c15.term.Grid", "c15.term.Seq", "c15.term.Tupl",
+REQUIRED = ["c15.roundtrips", "c15.url_helper_roundtrips", "c15.url_helper_falsy_values", "c15.history_checked", "c15.leaf_law_checked", "c15.term.Rooms", "c15.term.ValuedRooms", "c15.term.Grid", "c15.term.Seq", "c15.term.Tupl",
             "c15.term.OneOf", "c15.leaf.Spaces", "c15.leaf.HexInt", "c15.leaf.IntSpaces", "c15.leaf.MultiDigit", "c15.leaf.Dict", "c15.leaf.DecInt",
             "c15.single_row_or_column", "c15.rooms_unsorted_cells"]
 LEAVES = ("FixStr", "Dict", "Spaces", "DecInt", "HexInt", "IntSpaces", "MultiDigit")
@@ -186,6 +186,40 @@ def run(ctx):
                 roundtrip(ctx, term, env, value, comb)
         if t < 3:
             ctx.sample({"term": term})
+    # the URL helpers around the combinators (serialize_problem_as_url / deserialize_problem_as_url), also for top-level values that
+    # are falsy in Python (0, '', [], ()): a decoded problem is a problem whatever its truth value
+    falsy = [(["HexInt"], 0), (["DecInt"], 0), (["Dict", [0, 7], ["z", "y"]], 0), (["Dict", ["", "x"], ["e", "f"]], ""),
+             (["Seq", ["HexInt"], 0], []), (["Tupl", []], ()), (["Grid", ["HexInt"], 0, 0], [])]
+    for t in range(40 if not thorough else 600):
+        if t < len(falsy) * 2:
+            term, value = falsy[t % len(falsy)]
+            env = (rng.randint(1, 6), rng.randint(1, 6))
+        else:
+            term = K.gen_top(rng)
+            env = (rng.randint(1, 6), rng.randint(1, 6))
+            try:
+                value = K.value_of(term, env, rng)
+            except RuntimeError:
+                continue
+        ctx.current_case = {"term": term, "env": list(env), "value": repr(value)[:300], "via": "url-helpers"}
+        ctx.case(["url", term, list(env), repr(value)], nontrivial=True)
+        try:
+            comb = K.build(term)
+            url = PS.serialize_problem_as_url(comb, "vfpuz", env[0], env[1], value)
+            back = PS.deserialize_problem_as_url(comb, url, allowed_puzzles="vfpuz", return_size=True)
+            plain = PS.deserialize_problem_as_url(comb, url)
+        except Exception as e:
+            ctx.violation(f"url-helpers:raises:{type(e).__name__}", f"URL helpers raised {e!r} on an in-domain value", ctx.current_case)
+            continue
+        ctx.count("c15.url_helper_roundtrips")
+        if not bool(value):
+            ctx.count("c15.url_helper_falsy_values")
+        want = K.canon_value(term, value)
+        if back is None or plain is None or len(back) != 3 or tuple(back[:2]) != tuple(env) or K.canon_value(term, back[2]) != want \
+                or K.canon_value(term, plain) != want:
+            ctx.violation("url-helpers:roundtrip-differs" + (":falsy-value" if not bool(value) else ""),
+                          f"deserialize_problem_as_url(serialize_problem_as_url(v)) gave {back!r} / {plain!r} for {value!r} on a {env[0]}x{env[1]} board",
+                          dict(ctx.current_case, url=url))
     # all orderings of rooms and of cells within rooms (exhaustive for <= 3 rooms of <= 3 cells on a 2x3 board)
     if ctx.shard == 0 or thorough:
         import itertools
